@@ -9,7 +9,7 @@
 //   seq <seed> <n>    sequential API histories (join/detach/joinable/double join/self join): IN/OUT SEQ
 //   jthr <seed> <n>   jthread destruction: stop requested + joined
 //   intr <seed> <n>   interruption: only at interruption points, only while enabled, only the target
-// Every case is bounded by a watchdog (OUT/MON ... HANG, then the process exits).
+// Every case is bounded by a watchdog (30 s without progress: MON ... HANG, then the process exits).
 #include "common/ctl.hpp"
 
 #include <pika/condition_variable.hpp>
@@ -77,7 +77,7 @@ static void watchdog()
     {
         std::this_thread::sleep_for(100ms);
         long b = g_beat.load();
-        if (b == last) { if (++same >= 80) { std::printf("MON %s HANG\n", g_what); std::fflush(stdout); _exit(0); } }
+        if (b == last) { if (++same >= 300) { std::printf("MON %s HANG\n", g_what); std::fflush(stdout); _exit(0); } }
         else { same = 0; last = b; }
     }
 }
@@ -254,6 +254,8 @@ static void mode_race(std::uint64_t seed, int n, bool f13)
         });
         joiner.join();
         while (!finished->load()) pika::this_thread::yield();
+        // let the target finish its exit phase so that its records are complete (bounded)
+        for (auto t0 = clk::now(); !saw(1314, Up.load()) && clk::now() - t0 < 2s;) pika::this_thread::yield();
         g_logging = false;
         clear_delays();
         std::string js = seq_of(Up.load(), Jp.load(), true), ts = seq_of(Up.load(), Jp.load(), false);
@@ -467,7 +469,7 @@ static void mode_intr(std::uint64_t seed, int n)
                 else
                 {    // request made while enabled and running (no interruption point), then disabled
                     region = 3;
-                    while (!go) {}    // active, no pika call: the interrupter waits inside interrupt()
+                    while (!go) std::this_thread::yield();    // active for pika (no pika call): the interrupter waits inside interrupt()
                     {
                         pika::this_thread::disable_interruption di;
                         region = 2;
